@@ -43,6 +43,9 @@ func newVC(prog *Prog, fn *ssa.Function, fc *FuncContract, reg *KeyRegistry, dis
 		params: map[string]*SV{}, used: map[string]bool{}, unmod: map[string]bool{}, callSeq: map[string]int{},
 		oblNames: map[string]int{}, typeTags: map[string]int{}, boxed: map[*Term]Val{}, strDone: map[*Term]bool{}, inlineLimit: 60}
 	vc.A0 = Var("A0", IntSort)
+	vc.allocBase = vc.A0
+	vc.allocBases = map[*Term]bool{vc.A0: true}
+	vc.cellTypes = map[int]types.Type{}
 	vc.addGlobalFact(Gt(vc.A0, IntC(0)))
 	if fc != nil && (fc.Flags["safe"] || fc.Flags["nopanic"]) {
 		vc.safe = true
@@ -52,6 +55,12 @@ func newVC(prog *Prog, fn *ssa.Function, fc *FuncContract, reg *KeyRegistry, dis
 
 // VerifyFunc generates the obligations of one function under contract.
 func VerifyFunc(prog *Prog, fc *FuncContract) (res *FuncResult) {
+	return VerifyFuncMode(prog, fc, 0)
+}
+
+// VerifyFuncMode with concretize > 0 unrolls every loop that many times instead of cutting it at its
+// invariant: an under-approximation used only to search for real counterexamples.
+func VerifyFuncMode(prog *Prog, fc *FuncContract, concretize int) (res *FuncResult) {
 	fn := prog.FindFunc(fc)
 	res = &FuncResult{Name: fc.Pkg + ":" + fc.Key(), FC: fc}
 	if fn == nil {
@@ -71,6 +80,7 @@ func VerifyFunc(prog *Prog, fc *FuncContract) (res *FuncResult) {
 		discovery := pass == 0
 		reg.added = false
 		vc = newVC(prog, fn, fc, reg, discovery)
+		vc.concretize = concretize
 		vc.run()
 		if !discovery && !reg.added && !vc.lateKeys {
 			break
@@ -329,6 +339,8 @@ func VerifyLemma(prog *Prog, lm *Lemma) (res *FuncResult) {
 	vc := &VC{prog: prog, reg: reg, params: map[string]*SV{}, used: map[string]bool{}, unmod: map[string]bool{}, callSeq: map[string]int{},
 		oblNames: map[string]int{}, typeTags: map[string]int{}, boxed: map[*Term]Val{}, strDone: map[*Term]bool{}}
 	vc.A0 = Var("A0", IntSort)
+	vc.allocBase = vc.A0
+	vc.allocBases = map[*Term]bool{vc.A0: true}
 	st := &State{vc: vc, pc: True(), cells: map[int]Val{}, heap: map[string]*Term{}}
 	vc.discovery = true // lemmas are heap-free; lazily created keys are harmless
 	env := &SpecEnv{vc: vc, st: st, old: st, vars: map[string]*SV{}, pkg: prog.TypesPkg[pkgDirToPath(lm.Pkg)]}
